@@ -2,6 +2,7 @@ package api
 
 import (
 	"net/http"
+	"strconv"
 
 	"golang.org/x/crypto/ocsp"
 
@@ -33,6 +34,13 @@ func (r *SSHRevokeRequest) Validate() (err error) {
 	if r.Serial == "" {
 		return errs.BadRequest("missing serial")
 	}
+	// SSH certificate serial numbers are stored, and looked up on renew and
+	// rekey, in their canonical decimal form.
+	sn, err := strconv.ParseUint(r.Serial, 10, 64)
+	if err != nil {
+		return errs.BadRequest("'%s' is not a valid serial number - use a base 10 representation", r.Serial)
+	}
+	r.Serial = strconv.FormatUint(sn, 10)
 	if r.ReasonCode < ocsp.Unspecified || r.ReasonCode > ocsp.AACompromise {
 		return errs.BadRequest("reasonCode out of bounds")
 	}
